@@ -15,7 +15,14 @@ package lnwire
 // optional TLV records, unexported fields), the leaf the repetition selects
 // is set to the value of the plan cell's boundary class on a deep copy, the
 // copy is encoded by the real encoder and the real codec is observed on that
-// encoding.  No judgement here: spec/WireLaws/WireLawsTrace.tla decides.
+// encoding.  The record-level operators (rec-ins, rec-drop, rec-len) work on
+// the TLV extension of the valid encoding: the bytes the decoder hands to
+// ExtraOpaqueData.Decode (found by watching the reads of one decode) are taken
+// apart into records, one record is inserted / removed / resized as the plan
+// cell says, and the real codec is observed on fixed part + new extension; the
+// extension of the re-encoding is taken apart the same way to record whether
+// the inserted record is still there (rkept).
+// No judgement here: spec/WireLaws/WireLawsTrace.tla decides.
 
 import (
 	"bytes"
@@ -94,9 +101,34 @@ type c10LogReader struct {
 	off  int
 	ends []int
 	lens []int
+	// ext: offset at which ExtraOpaqueData.Decode started to read the rest
+	// of the message (the TLV extension); -1: it was never called
+	ext int
+}
+
+// c10InExtDecode: is the current Read on the message reader issued by
+// (*ExtraOpaqueData).Decode, or (pure-TLV messages, whose whole body is the
+// stream) by the tlv stream decoder itself?
+func c10InExtDecode() bool {
+	var pcs [24]uintptr
+	n := runtime.Callers(3, pcs[:])
+	fr := runtime.CallersFrames(pcs[:n])
+	for {
+		f, more := fr.Next()
+		if strings.HasSuffix(f.Function, "(*ExtraOpaqueData).Decode") ||
+			strings.HasSuffix(f.Function, "tlv.(*Stream).decode") {
+			return true
+		}
+		if !more {
+			return false
+		}
+	}
 }
 
 func (r *c10LogReader) Read(p []byte) (int, error) {
+	if r.ext < 0 && c10InExtDecode() {
+		r.ext = r.off
+	}
 	if r.off >= len(r.b) {
 		return 0, io.EOF
 	}
@@ -115,6 +147,65 @@ type c10Valid struct {
 	lenOff []int // offsets of 2-byte fields whose value is the size of the next read
 	twoOff []int // offsets of all 2-byte reads
 	hdr    int
+	ext    int      // offset of the TLV extension, -1: the message has none
+	recs   []c10Rec // its records (nil if it is not a TLV stream)
+	extok  bool
+}
+
+// c10Rec is one record of a TLV extension.
+type c10Rec struct {
+	typ uint64
+	val []byte
+}
+
+func c10ParseExt(b []byte) ([]c10Rec, bool) {
+	var (
+		buf [8]byte
+		out []c10Rec
+	)
+	r := bytes.NewReader(b)
+	for r.Len() > 0 {
+		t, err := tlv.ReadVarInt(r, &buf)
+		if err != nil {
+			return nil, false
+		}
+		l, err := tlv.ReadVarInt(r, &buf)
+		if err != nil || l > uint64(r.Len()) {
+			return nil, false
+		}
+		v := make([]byte, l)
+		_, _ = io.ReadFull(r, v)
+		out = append(out, c10Rec{typ: t, val: v})
+	}
+	return out, true
+}
+
+func c10SerExt(recs []c10Rec) []byte {
+	var (
+		buf [8]byte
+		b   bytes.Buffer
+	)
+	for _, r := range recs {
+		_ = tlv.WriteVarInt(&b, r.typ, &buf)
+		_ = tlv.WriteVarInt(&b, uint64(len(r.val)), &buf)
+		b.Write(r.val)
+	}
+	return b.Bytes()
+}
+
+// c10ExtOf decodes b once with the logging reader and returns where the
+// decoder started to read the TLV extension and the records found there.
+func c10ExtOf(kind string, b []byte) (int, []c10Rec, bool) {
+	lr := &c10LogReader{b: b, ext: -1}
+	func() {
+		defer func() { _ = recover() }()
+		_, _ = c10Codecs[kind].dec(lr)
+	}()
+	if lr.ext < 0 || lr.ext > len(b) {
+		return -1, nil, false
+	}
+	recs, ok := c10ParseExt(b[lr.ext:])
+	return lr.ext, recs, ok
 }
 
 func c10Seed(parts ...int) int64 {
@@ -174,7 +265,7 @@ func c10MakeValid(kind string, t, rep int) (*c10Valid, error) {
 		return nil, fmt.Errorf("encode of generated value failed: %w", err)
 	}
 	v.b = b
-	lr := &c10LogReader{b: b}
+	lr := &c10LogReader{b: b, ext: -1}
 	// If the valid encoding does not decode, the read log is what it is; the
 	// "valid" cell records the failure (round-trip law), nothing is hidden.
 	func() {
@@ -201,6 +292,11 @@ func c10MakeValid(kind string, t, rep int) (*c10Valid, error) {
 		v.bounds = append(v.bounds, len(b))
 	}
 	sort.Ints(v.bounds)
+	v.ext = -1
+	if kind != "pkt" && lr.ext >= v.hdr && lr.ext <= len(b) {
+		v.ext = lr.ext
+		v.recs, v.extok = c10ParseExt(b[lr.ext:])
+	}
 	return v, nil
 }
 
@@ -767,6 +863,97 @@ func c10ValCase(v *c10Valid, c c10Cell, rep int, rec verifkit.Rec) (in []byte, o
 	return in, cp, true
 }
 
+// ---- record-level operators ----------------------------------------------------
+
+var c10RecTypes = map[string]uint64{"o9d": 157, "ofb": 251, "efc": 252, "ofd": 253, "efffe": 65534, "offff": 65535,
+	"c10001": 65537, "s3b9aca01": 1000000001, "cffffffff": 4294967295, "c100000001": 4294967297}
+var c10DeltaNeed = map[string]int{"z": 1, "m1": 1, "p1": 0, "m8": 8, "p8": 8, "dbl": 1}
+
+// c10RecCase builds the input of a record-level cell: the fixed part of the
+// valid encoding followed by its extension with one record inserted, removed
+// or resized.  app=false: not applicable (the fields recorded in rec say why).
+func c10RecCase(v *c10Valid, c c10Cell, rep int, rec verifkit.Rec) (in []byte, ins *c10Rec, app bool) {
+	c1, c2, _ := strings.Cut(c.Pos, ".")
+	rec["tcls"], rec["lcls"] = c1, c2
+	if v.ext < 0 {
+		return nil, nil, false
+	}
+	rec["hasext"], rec["nrec"] = 1, len(v.recs)
+	if !v.extok {
+		rec["nrec"] = -1
+		return nil, nil, false
+	}
+	var out []c10Rec
+	switch c.Op {
+	case "rec-ins":
+		typ, ok := c10RecTypes[c1]
+		n, ok2 := c10LenVals[c2]
+		if !ok || !ok2 {
+			return nil, nil, false
+		}
+		val := make([]byte, n)
+		for i := range val {
+			val[i] = byte(0x41 + (i*7+rep)%53)
+		}
+		ins = &c10Rec{typ: typ, val: val}
+		rec["rt"] = fmt.Sprintf("%x", typ)
+		for _, r := range v.recs {
+			if r.typ != typ {
+				out = append(out, r)
+			}
+		}
+		out = append(out, *ins)
+		sort.SliceStable(out, func(i, j int) bool { return out[i].typ < out[j].typ })
+	case "rec-drop":
+		if len(v.recs) == 0 {
+			return nil, nil, false
+		}
+		if c1 != "all" {
+			k := map[string]int{"head": 0, "mid": len(v.recs) / 2, "tail": len(v.recs) - 1}[c1]
+			rec["rt"], rec["rlen"] = fmt.Sprintf("%x", v.recs[k].typ), len(v.recs[k].val)
+			out = append(out, v.recs[:k]...)
+			out = append(out, v.recs[k+1:]...)
+		}
+	case "rec-len":
+		if len(v.recs) == 0 {
+			return nil, nil, false
+		}
+		k := map[string]int{"head": 0, "mid": len(v.recs) / 2, "tail": len(v.recs) - 1}[c1]
+		old := v.recs[k].val
+		n := len(old)
+		rec["rt"], rec["rlen"] = fmt.Sprintf("%x", v.recs[k].typ), n
+		need, ok := c10DeltaNeed[c2]
+		if !ok || n < need {
+			return nil, nil, false
+		}
+		var nv []byte
+		switch c2 {
+		case "z":
+		case "m1":
+			nv = append(nv, old[:n-1]...)
+		case "p1":
+			nv = append(append(nv, old...), 0x01)
+		case "m8":
+			nv = append(nv, old[:n-8]...)
+		case "p8":
+			nv = append(append(nv, old...), old[n-8:]...)
+		case "dbl":
+			nv = append(append(nv, old...), old...)
+		}
+		out = append(out, v.recs...)
+		out[k] = c10Rec{typ: v.recs[k].typ, val: nv}
+	default:
+		return nil, nil, false
+	}
+	in = append(append([]byte{}, v.b[:v.ext]...), c10SerExt(out)...)
+	if len(in) > MaxMsgBody+2 {
+		// outside the 65535-byte domain of the property
+		rec["ilen"] = len(in)
+		return nil, nil, false
+	}
+	return in, ins, true
+}
+
 var c10AllocSample = []metrics.Sample{{Name: "/gc/heap/allocs:bytes"}}
 
 func c10Allocs() uint64 {
@@ -774,9 +961,13 @@ func c10Allocs() uint64 {
 	return c10AllocSample[0].Value.Uint64()
 }
 
+// c10LastB2 is the re-encoding produced by the last c10Observe (nil: none).
+var c10LastB2 []byte
+
 // c10Observe runs the real codec on one input.
 func c10Observe(kind string, in []byte, orig interface{}, rec verifkit.Rec) {
 	cd := c10Codecs[kind]
+	c10LastB2 = nil
 	for _, k := range []string{"pan", "hang", "alloc", "d1", "e1", "e1len", "d2", "e2", "fix", "same", "veq"} {
 		rec[k] = 0
 	}
@@ -813,6 +1004,7 @@ func c10Observe(kind string, in []byte, orig interface{}, rec verifkit.Rec) {
 	}
 	rec["e1"] = 1
 	rec["e1len"] = len(b2)
+	c10LastB2 = b2
 	if bytes.Equal(b2, in) {
 		rec["same"] = 1
 	}
@@ -836,6 +1028,7 @@ func TestVerifC10WireLaws(t *testing.T) {
 	out := verifkit.MustWriter(verifkit.Env("VERIF_OUT", ".") + "/trace.ndjson")
 	defer out.Close()
 	reps := verifkit.EnvInt("VERIF_REPS", 2)
+	recReps := verifkit.EnvInt("VERIF_REC_REPS", reps)
 
 	// ---- framing: type dispatch over the whole 16-bit space ---------------
 	emitRanges := func(a string, f func(int) (string, int)) {
@@ -971,6 +1164,9 @@ func TestVerifC10WireLaws(t *testing.T) {
 	ncase := 0
 	for _, c := range cells {
 		for rep := 1; rep <= reps; rep++ {
+			if strings.HasPrefix(c.Op, "rec-") && rep > recReps {
+				break
+			}
 			key := [3]int{kinds[c.Kind], c.T, rep}
 			v, ok := valid[key]
 			if !ok {
@@ -984,7 +1180,9 @@ func TestVerifC10WireLaws(t *testing.T) {
 				"na": 0, "vlen": len(v.b), "ilen": len(v.b), "h": "",
 				"pan": 0, "hang": 0, "alloc": 0, "d1": 0, "e1": 0, "e1len": 0, "d2": 0, "e2": 0,
 				"fix": 0, "same": 0, "veq": 0,
-				"nf": 0, "fi": 0, "fld": "", "gotype": "", "w": 0, "inlist": 0, "e0": 1, "chg": 0}
+				"nf": 0, "fi": 0, "fld": "", "gotype": "", "w": 0, "inlist": 0, "e0": 1, "chg": 0,
+				"hasext": 0, "nrec": 0, "tcls": "", "lcls": "", "rlen": 0, "rt": "", "rkept": 0}
+			var ins *c10Rec
 			var orig interface{}
 			var in []byte
 			app := false
@@ -1012,6 +1210,8 @@ func TestVerifC10WireLaws(t *testing.T) {
 					ncase++
 					continue
 				}
+			} else if strings.HasPrefix(c.Op, "rec-") {
+				in, ins, app = c10RecCase(v, c, rep, rec)
 			} else if c.Op == "ext-odd" || c.Op == "var-bound" {
 				ev, ok := interface{}(nil), false
 				if c.Op == "ext-odd" {
@@ -1047,6 +1247,15 @@ func TestVerifC10WireLaws(t *testing.T) {
 				obs[k] = x
 			}
 			c10Observe(c.Kind, in, orig, obs)
+			if ins != nil && c10LastB2 != nil && obs["pan"] == 0 {
+				// is the inserted record in the extension of the re-encoding?
+				_, recs2, _ := c10ExtOf(c.Kind, c10LastB2)
+				for _, r := range recs2 {
+					if r.typ == ins.typ && bytes.Equal(r.val, ins.val) {
+						obs["rkept"] = 1
+					}
+				}
+			}
 			started.Store(0)
 			if obs["pan"] == 1 || verifkit.Env("VERIF_KEEP_INPUT", "") != "" {
 				obs["input"] = hex.EncodeToString(in)
